@@ -16,7 +16,7 @@ import time
 HERE = os.path.dirname(os.path.abspath(__file__))
 VERIF = os.path.abspath(os.path.join(HERE, '..'))
 LEAN = os.path.join(VERIF, 'lean')
-EVID = os.path.join(VERIF, 'evidence')
+EVID = os.environ.get('VERIF_EVIDENCE_DIR') or os.path.join(VERIF, 'evidence')      # (tools/run_seeded.py points this elsewhere: runs against a changed tree are not evidence)
 REPLAY = os.path.join(EVID, 'replay')
 PROOF_TIMEOUT = int(os.environ.get('VERIF_PROOF_TIMEOUT', '300'))
 ALLOWED_AXIOMS = {'propext', 'Classical.choice', 'Quot.sound'}
